@@ -29,12 +29,19 @@ PROP = dict(
         "conversion on a larger domain (grow) is generated for Canonical objects in both layouts, incl. objects wrapping buf[:n] of a "
         "buffer with non-zero spare capacity; for Lagrange/LagrangeCoset objects the domain passed must be the one the values live "
         "on (the object does not record it): another cardinality is a caller error, not generated (the library does not reject it)",
+        "coset shifts: every conversion of an object that is not in LagrangeCoset basis is handed a domain whose coset shift is one "
+        "of {package default, two fft.WithShift constants}, an object in LagrangeCoset basis the domain of its coset; "
+        "DivideByXMinusOne gets a small and a big domain with independent shifts (the numerator lives on the coset of the big one); "
+        "the reference always computes with the shift of the domain actually involved",
+        "a polynomial is one record of a stream: WriteTo/ReadFrom are asserted to write/consume exactly their encoding and to return "
+        "that count (also on failing writers and truncated streams), which is how callers store several objects on one stream",
         "GetCoeff in Canonical basis is asserted for shift 0 only (the doc comment does not define shifted coefficients)",
         "the layout left behind by a basis conversion is not documented: the model adopts the flag the object reports and asserts "
         "that flag and stored entries agree",
         "not asserted (undocumented): Polynomial.Sub / Equal on mismatching lengths, Add/Eval/InterpolateOnRange on empty input, "
-        "MultiLin.Evaluate with fewer coordinates than variables, ratio builders when a denominator factor vanishes",
-        "fix patches /verif/fixes/F12[a-g]-*.patch are applied to the /repo working tree (defect cluster F12, DESIGN §6)",
+        "MultiLin.Evaluate with fewer coordinates than variables, ratio builders when a denominator factor vanishes; "
+        "fr/polynomial exported functions not called: Pool.PrintPoolStats (prints to stdout), MultiLin.FoldParallel's untouched upper half",
+        "fix patches /verif/fixes/F12[a-h]-*.patch are applied to the /repo working tree (defect cluster F12, DESIGN §6)",
     ],
     mandatory_all=["eval_x:domain", "eval_x:coset", "eval_shift:neg", "eval_shift:gt5", "eval_shift:ge_size", "coeff_shift:neg",
                    "last_op:WriteRead", "last_op:GrowCoset", "size:1", "op:ShallowClone", "mode:pipeline", "mode:satisfied",
@@ -42,7 +49,12 @@ PROP = dict(
                    "F12a", "F12b", "F12c", "F12d", "F12e", "F12f", "F12g",
                    "grow_from:canonical/bitreverse", "grow_from:canonical/regular", "grow_into_spare", "init_spare_capacity",
                    "polys:7+", "eval_after_Clone:lagrangecoset/regular", "eval_after_Clone:lagrangecoset/bitreverse",
-                   "eval_after_ShallowClone:lagrangecoset/regular", "eval_after_WriteRead:lagrangecoset/bitreverse"],
+                   "eval_after_ShallowClone:lagrangecoset/regular", "eval_after_WriteRead:lagrangecoset/bitreverse",
+                   "shift:small", "shift:big", "shift:both_diff", "shift:both_same", "domshift:custom", "domshift_changes",
+                   "op:FoldParallel", "op:FoldParallelPool", "chunk:odd_start_odd_len", "chunk:odd_start_even_len",
+                   "chunk:even_start_odd_len", "op:PoolClone",
+                   "reader:plain_wrapper", "reader:one_byte", "reader:data_err", "reader:bufio.Reader", "stream:two_objects",
+                   "stream:foreign_bytes_between", "stream:truncated", "writer:failing_partial=true", "F12h"],
     jobs=[
         dict(name="regress", pkg="c20", run="^TestC20_(Regress.*|RefSelf)$", rapid=False),
         dict(name="exhaustive", pkg="c20", run="^TestC20_Exhaustive$", rapid=False, shards=_curves, seeds=(3, 8),
@@ -50,6 +62,7 @@ PROP = dict(
         dict(name="machine", pkg="c20", run="^TestC20_Machine$", shards=_curves, checks=(2500, 30000), weight=3),
         dict(name="builders", pkg="c20", run="^TestC20_(Expr|Quotient|RatioShuffled|RatioCopy)$", shards=_curves,
              checks=(700, 7000), weight=4),
+        dict(name="stream", pkg="c20", run="^TestC20_Stream$", shards=_curves, checks=(1500, 15000)),
         dict(name="interpolate", pkg="c20", run="^TestC20_Interpolate$", shards=_poly_fields, checks=(300, 3000), weight=3),
         dict(name="frpoly", pkg="c20", run="^TestC20_(Poly|MultiLin)$", shards=_poly_fields, checks=(3000, 30000)),
     ],
